@@ -230,7 +230,7 @@ def run(ck):
     oracle = Oracle(table)
 
     # --- correspondence
-    strings = gen_requests(table, rng, 1500 if ck.quick else 40000, not ck.quick)
+    strings = gen_requests(table, rng, 1500 if ck.quick else 15000, not ck.quick)
     lines1 = ["mangle " + hx(s) for s in strings] + ["demangle " + hx(s) for s in strings]
     pi, impl1, model1 = run_pair(ck, harness, driver, lines1)
     crashed = pi.returncode != 0
